@@ -3,22 +3,22 @@
 From PV Require Import C11.Spec C11.Lib C11.ProofsTables C11.ProofsAddr C11.ProofsLines C11.ProofsOwners.
 
 (* ------------------------------------------------------------ retrieve = the reference tables *)
-Lemma protos_rows_app le files lk filt a b :
-  protos_rows le files lk filt (a ++ b)
-  = do x <- protos_rows le files lk filt a; do y <- protos_rows le files lk filt b; Val (x ++ y).
+Lemma protos_rows_app v le files lk filt a b :
+  protos_rows v le files lk filt (a ++ b)
+  = do x <- protos_rows v le files lk filt a; do y <- protos_rows v le files lk filt b; Val (x ++ y).
 Proof.
   induction a as [|p a IH].
-  - cbn [app protos_rows obind]. destruct (protos_rows le files lk filt b); reflexivity.
+  - cbn [app protos_rows obind]. destruct (protos_rows v le files lk filt b); reflexivity.
   - cbn [app protos_rows]. rewrite IH.
-    destruct (proto_rows le files lk filt p) as [r| |]; cbn [obind]; try reflexivity.
-    destruct (protos_rows le files lk filt a) as [ra| |]; cbn [obind]; try reflexivity.
-    destruct (protos_rows le files lk filt b) as [rb| |]; cbn [obind]; try reflexivity.
+    destruct (proto_rows v le files lk filt p) as [r| |]; cbn [obind]; try reflexivity.
+    destruct (protos_rows v le files lk filt a) as [ra| |]; cbn [obind]; try reflexivity.
+    destruct (protos_rows v le files lk filt b) as [rb| |]; cbn [obind]; try reflexivity.
     now rewrite app_assoc.
 Qed.
 
-Lemma protos_rows_on le files lk filt (b : bool) p R :
-  (b = true -> proto_rows le files lk filt p = Val R) ->
-  protos_rows le files lk filt (on b [p]) = Val (on b R).
+Lemma protos_rows_on v le files lk filt (b : bool) p R :
+  (b = true -> proto_rows v le files lk filt p = Val R) ->
+  protos_rows v le files lk filt (on b [p]) = Val (on b R).
 Proof.
   destruct b; cbn [on]; intros H; [|reflexivity].
   cbn [protos_rows]. rewrite H by reflexivity. cbn [obind]. now rewrite app_nil_r.
@@ -75,10 +75,10 @@ Proof.
   split; [exact H3|]. split; [intros l E; rewrite E in H4; exact H4|]. exact H5.
 Qed.
 
-Lemma retrieve_ok le st kind lk filt :
+Lemma retrieve_ok v le st kind lk filt :
   lk_ok lk -> wf_state st = true -> files_text_safe le st = true -> In kind kinds ->
-  (covers_unix kind = true -> no_lead_ws st = true) ->
-  retrieve le (k_files le st) kind lk filt
+  (covers_unix kind = true -> v_exact v = true \/ no_lead_ws st = true) ->
+  retrieve v le (k_files le st) kind lk filt
   = Val (on (spec_admits kind 2 1) (R_inet lk filt 2 1 (k_tcp4 st))
          ++ on (spec_admits kind 10 1) (R_inet lk filt 10 1 (opt_list (k_tcp6 st)))
          ++ on (spec_admits kind 2 2) (R_inet lk filt 2 2 (k_udp4 st))
@@ -90,13 +90,13 @@ Proof.
   apply files_text_safe_parts in Hsafe as (T4 & T6 & TU4 & TU6 & TX).
   unfold retrieve. rewrite kind_table_tmap by exact Hk. cbn [of_option obind].
   rewrite filter_all5. rewrite !protos_rows_app.
-  rewrite (protos_rows_on le _ lk filt _ p_tcp4 (R_inet lk filt 2 1 (k_tcp4 st))).
+  rewrite (protos_rows_on v le _ lk filt _ p_tcp4 (R_inet lk filt 2 1 (k_tcp4 st))).
   2:{ intros _. unfold proto_rows, p_tcp4. cbv beta iota.
       change ((2 =? AF_INET) || (2 =? AF_INET6)) with true. cbv iota.
       change (k_files le st (bs "tcp")) with (Some (k_ifile le hdr_tcp (k_tcp4 st))).
       exact (process_inet_ok le false 1 lk filt hdr_tcp (k_tcp4 st) _ Hlk eq_refl W4
                (or_introl (conj eq_refl S4)) T4). }
-  rewrite (protos_rows_on le _ lk filt _ p_tcp6 (R_inet lk filt 10 1 (opt_list (k_tcp6 st)))).
+  rewrite (protos_rows_on v le _ lk filt _ p_tcp6 (R_inet lk filt 10 1 (opt_list (k_tcp6 st)))).
   2:{ intros _. unfold proto_rows, p_tcp6. cbv beta iota.
       change ((10 =? AF_INET) || (10 =? AF_INET6)) with true. cbv iota.
       change (k_files le st (bs "tcp6")) with (option_map (k_ifile le hdr_tcp6) (k_tcp6 st)).
@@ -104,24 +104,24 @@ Proof.
       - exact (process_inet_ok le true 1 lk filt hdr_tcp6 l _ Hlk eq_refl W6
                  (or_introl (conj eq_refl S6)) (T6 l eq_refl)).
       - reflexivity. }
-  rewrite (protos_rows_on le _ lk filt _ p_udp4 (R_inet lk filt 2 2 (k_udp4 st))).
+  rewrite (protos_rows_on v le _ lk filt _ p_udp4 (R_inet lk filt 2 2 (k_udp4 st))).
   2:{ intros _. unfold proto_rows, p_udp4. cbv beta iota.
       change ((2 =? AF_INET) || (2 =? AF_INET6)) with true. cbv iota.
       change (k_files le st (bs "udp")) with (Some (k_ifile le hdr_udp (k_udp4 st))).
       exact (process_inet_ok le false 2 lk filt hdr_udp (k_udp4 st) _ Hlk eq_refl U4 (or_intror eq_refl) TU4). }
-  rewrite (protos_rows_on le _ lk filt _ p_udp6 (R_inet lk filt 10 2 (opt_list (k_udp6 st)))).
+  rewrite (protos_rows_on v le _ lk filt _ p_udp6 (R_inet lk filt 10 2 (opt_list (k_udp6 st)))).
   2:{ intros _. unfold proto_rows, p_udp6. cbv beta iota.
       change ((10 =? AF_INET) || (10 =? AF_INET6)) with true. cbv iota.
       change (k_files le st (bs "udp6")) with (option_map (k_ifile le hdr_udp6) (k_udp6 st)).
       destruct (k_udp6 st) as [l|] eqn:E6; cbn [option_map opt_list] in *.
       - exact (process_inet_ok le true 2 lk filt hdr_udp6 l _ Hlk eq_refl U6 (or_intror eq_refl) (TU6 l eq_refl)).
       - reflexivity. }
-  rewrite (protos_rows_on le _ lk filt _ p_unix (R_unix lk filt (k_unix st))).
+  rewrite (protos_rows_on v le _ lk filt _ p_unix (R_unix lk filt (k_unix st))).
   2:{ intros Hb. unfold proto_rows, p_unix. cbv beta iota.
       change ((1 =? AF_INET) || (1 =? AF_INET6)) with false. cbv iota.
       change (k_files le st (bs "unix")) with (Some (k_ufile (k_unix st))).
       apply process_unix_ok; [exact WU| |exact TX].
-      apply Hux. exact Hb. }
+      unfold no_lead_ws in Hux. apply Hux. exact Hb. }
   cbn [obind]. reflexivity.
 Qed.
 
@@ -153,14 +153,14 @@ Proof.
 Qed.
 
 (* system-wide, TCP/UDP tables *)
-Lemma sys_inet_rows ps fam ty socks :
-  Forall2 row_ok (R_inet (lookup_all (dicts ps)) None fam ty socks)
+Lemma sys_inet_rows v ps fam ty socks :
+  Forall2 row_ok (R_inet (lookup_v v (dicts ps)) None fam ty socks)
                  (flat_map (inet_entry (sys_owners ps) fam ty) socks).
 Proof.
   unfold R_inet. induction socks as [|s r IH]; [constructor|].
   cbn [flat_map]. apply Forall2_app; [|exact IH].
   unfold ref_inet_row, inet_entry, owner_of, sys_owners. cbn [filt_skip].
-  destruct (lookup_all_cases ps (s_inode s)) as [[Hh Hl]|[l (Hl & Hne & Hin)]].
+  destruct (lookup_v_cases v ps (s_inode s)) as [[Hh Hl]|[l (Hl & Hne & Hin)]].
   - rewrite Hl, Hh. cbn [olist]. constructor; [|constructor].
     unfold row_ok. cbn [r_family r_type r_laddr r_raddr r_status r_pid r_fd e_family e_type e_laddr e_raddr
                         e_status e_owners fst snd].
@@ -188,15 +188,18 @@ Proof.
                       e_status e_owners]. repeat split. left. now destruct pf.
 Qed.
 
-Lemma sys_unix_rows ps us :
-  forallb (fun u => one_holder_proc ps (u_inode u)) us = true ->
-  Forall2 row_ok (R_unix (lookup_all (dicts ps)) None us) (flat_map (unix_entry (sys_owners ps)) us).
+Lemma sys_unix_rows v ps us :
+  v_merge v = true \/ forallb (fun u => one_holder_proc ps (u_inode u)) us = true ->
+  Forall2 row_ok (R_unix (lookup_v v (dicts ps)) None us) (flat_map (unix_entry (sys_owners ps)) us).
 Proof.
   unfold R_unix. induction us as [|u r IH]; intros H; [constructor|].
-  cbn [forallb] in H. apply andb_true_iff in H as [Hu Hr].
+  assert (Hu : v_merge v = true \/ one_holder_proc ps (u_inode u) = true).
+  { destruct H as [H|H]; [now left|right]. cbn [forallb] in H. now apply andb_true_iff in H as [H _]. }
+  assert (Hr : v_merge v = true \/ forallb (fun u => one_holder_proc ps (u_inode u)) r = true).
+  { destruct H as [H|H]; [now left|right]. cbn [forallb] in H. now apply andb_true_iff in H as [_ H]. }
   cbn [flat_map]. apply Forall2_app; [|now apply IH].
   unfold ref_unix_rows, unix_entry, unix_pairs, sys_owners.
-  rewrite (lookup_all_unshared ps (u_inode u) Hu).
+  rewrite (lookup_v_unshared v ps (u_inode u) Hu).
   assert (E : match match holders ps (u_inode u) with [] => None | l => Some l end with
               | Some l => map (fun pf : Z * Z => (Some (fst pf), snd pf)) l
               | None => [(None, -1)]
@@ -246,19 +249,20 @@ Proof.
 Qed.
 
 (* ------------------------------------------------------------ the theorems *)
-Theorem system_wide le st kind :
+Theorem system_wide v le st kind :
   wf_state st = true -> files_text_safe le st = true -> In kind kinds ->
-  (covers_unix kind = true -> unix_unshared st = true /\ no_lead_ws st = true) ->
-  exists rows, net_connections le (k_files le st) (to_procs (k_procs st)) kind = Val rows
+  (covers_unix kind = true -> (v_merge v = true \/ unix_unshared st = true)
+                              /\ (v_exact v = true \/ no_lead_ws st = true)) ->
+  exists rows, net_connections v le (k_files le st) (to_procs (k_procs st)) kind = Val rows
                /\ Forall2 row_ok rows (spec_sys kind st).
 Proof.
   intros Hwf Hsafe Hk Hux.
   pose proof (wf_state_parts st Hwf) as (_ & _ & _ & _ & _ & _ & _ & WP).
   unfold net_connections. rewrite check_kind_good by exact Hk. cbn [obind].
   rewrite get_all_inodes_ok by exact WP. cbn [obind].
-  rewrite (retrieve_ok le st kind _ None (lookup_all_lk_ok _) Hwf Hsafe Hk) by (intros H; now apply Hux).
+  rewrite (retrieve_ok v le st kind _ None (lookup_v_lk_ok v _) Hwf Hsafe Hk) by (intros H; now apply Hux).
   eexists. split; [reflexivity|].
-  unfold spec_sys, spec_entries. rewrite (unix_entries_on _ kind _ Hk).
+  unfold spec_sys, spec_entries, spec_entries2. rewrite (unix_entries_on _ kind _ Hk).
   repeat apply Forall2_app; apply Forall2_on; intros Hb; try apply sys_inet_rows.
   apply sys_unix_rows. destruct (Hux Hb) as [Hs _]. exact Hs.
 Qed.
@@ -266,7 +270,7 @@ Qed.
 Lemma spec_entries_nil own kind st :
   (forall ino, own ino = []) -> spec_entries own kind st = [].
 Proof.
-  intros H. unfold spec_entries.
+  intros H. unfold spec_entries, spec_entries2.
   assert (Hi : forall fam ty socks, flat_map (inet_entry own fam ty) socks = []).
   { intros fam ty socks. induction socks as [|s r IH]; [reflexivity|].
     cbn [flat_map]. unfold inet_entry at 1. rewrite H. exact IH. }
@@ -279,10 +283,10 @@ Proof.
     reflexivity.
 Qed.
 
-Theorem per_process le st p kind :
+Theorem per_process v le st p kind :
   wf_state st = true -> files_text_safe le st = true -> wf_kproc p = true -> p_visible p = true ->
-  In kind kinds -> (covers_unix kind = true -> no_lead_ws st = true) ->
-  exists rows, proc_net_connections le (k_files le st) (p_pid p) (to_listing p) kind = Val rows
+  In kind kinds -> (covers_unix kind = true -> v_exact v = true \/ no_lead_ws st = true) ->
+  exists rows, proc_net_connections v le (k_files le st) (p_pid p) (to_listing p) kind = Val rows
                /\ Forall2 row_ok rows (spec_proc p kind st).
 Proof.
   intros Hwf Hsafe Hp Hv Hk Hux.
@@ -293,11 +297,77 @@ Proof.
   - exists []. split; [reflexivity|]. unfold spec_proc. rewrite spec_entries_nil; [constructor|].
     intros ino. unfold proc_owners. rewrite (holders_in_visible p ino Hv), Ed. reflexivity.
   - rewrite <- Ed.
-    rewrite (retrieve_ok le st kind _ (Some (p_pid p)) (lookup1_lk_ok _) Hwf Hsafe Hk Hux).
+    rewrite (retrieve_ok v le st kind _ (Some (p_pid p)) (lookup1_lk_ok _) Hwf Hsafe Hk Hux).
     eexists. split; [reflexivity|].
-    unfold spec_proc, spec_entries. rewrite (unix_entries_on _ kind _ Hk).
+    unfold spec_proc, spec_entries, spec_entries2. rewrite (unix_entries_on _ kind _ Hk).
     repeat apply Forall2_app; apply Forall2_on; intros Hb; try (now apply proc_inet_rows).
     now apply proc_unix_rows.
+Qed.
+
+(* the current code (v_merge) reports the first holder in scan order *)
+Lemma sys_inet_rows_first v ps fam ty socks :
+  v_merge v = true ->
+  Forall2 row_ok (R_inet (lookup_v v (dicts ps)) None fam ty socks)
+                 (flat_map (inet_entry (fun ino => firstn 1 (sys_owners ps ino)) fam ty) socks).
+Proof.
+  intros Hm. unfold R_inet. induction socks as [|s r IH]; [constructor|].
+  cbn [flat_map]. apply Forall2_app; [|exact IH].
+  unfold ref_inet_row, inet_entry, owner_of, sys_owners. cbn [filt_skip].
+  rewrite (lookup_v_unshared v ps (s_inode s) (or_introl Hm)).
+  destruct (holders ps (s_inode s)) as [|[p f] t].
+  - cbn [firstn olist]. constructor; [|constructor].
+    unfold row_ok. cbn [r_family r_type r_laddr r_raddr r_status r_pid r_fd e_family e_type e_laddr e_raddr
+                        e_status e_owners fst snd].
+    repeat split. now left.
+  - cbn [map firstn fst snd olist]. constructor; [|constructor].
+    unfold row_ok. cbn [r_family r_type r_laddr r_raddr r_status r_pid r_fd e_family e_type e_laddr e_raddr
+                        e_status e_owners fst snd].
+    repeat split. now left.
+Qed.
+
+Theorem system_wide_first v le st kind :
+  v_merge v = true ->
+  wf_state st = true -> files_text_safe le st = true -> In kind kinds ->
+  (covers_unix kind = true -> v_exact v = true \/ no_lead_ws st = true) ->
+  exists rows, net_connections v le (k_files le st) (to_procs (k_procs st)) kind = Val rows
+               /\ Forall2 row_ok rows (spec_sys_first kind st).
+Proof.
+  intros Hm Hwf Hsafe Hk Hux.
+  pose proof (wf_state_parts st Hwf) as (_ & _ & _ & _ & _ & _ & _ & WP).
+  unfold net_connections. rewrite check_kind_good by exact Hk. cbn [obind].
+  rewrite get_all_inodes_ok by exact WP. cbn [obind].
+  rewrite (retrieve_ok v le st kind _ None (lookup_v_lk_ok v _) Hwf Hsafe Hk Hux).
+  eexists. split; [reflexivity|].
+  unfold spec_sys_first, spec_entries2. rewrite (unix_entries_on _ kind _ Hk).
+  repeat apply Forall2_app; apply Forall2_on; intros Hb; try (now apply sys_inet_rows_first).
+  apply sys_unix_rows. now left.
+Qed.
+
+(* the code as it is now: no exclusion *)
+Corollary system_wide_current le st kind :
+  wf_state st = true -> files_text_safe le st = true -> In kind kinds ->
+  exists rows, net_connections current le (k_files le st) (to_procs (k_procs st)) kind = Val rows
+               /\ Forall2 row_ok rows (spec_sys kind st).
+Proof.
+  intros Hwf Hsafe Hk. apply system_wide; try assumption.
+  intros _. split; left; reflexivity.
+Qed.
+Corollary system_wide_first_current le st kind :
+  wf_state st = true -> files_text_safe le st = true -> In kind kinds ->
+  exists rows, net_connections current le (k_files le st) (to_procs (k_procs st)) kind = Val rows
+               /\ Forall2 row_ok rows (spec_sys_first kind st).
+Proof.
+  intros Hwf Hsafe Hk. apply system_wide_first; try assumption; [reflexivity|].
+  intros _. left; reflexivity.
+Qed.
+Corollary per_process_current le st p kind :
+  wf_state st = true -> files_text_safe le st = true -> wf_kproc p = true -> p_visible p = true ->
+  In kind kinds ->
+  exists rows, proc_net_connections current le (k_files le st) (p_pid p) (to_listing p) kind = Val rows
+               /\ Forall2 row_ok rows (spec_proc p kind st).
+Proof.
+  intros Hwf Hsafe Hp Hv Hk. apply per_process; try assumption.
+  intros _. left; reflexivity.
 Qed.
 
 (* ------------------------------------------------------------ witnesses *)
@@ -333,22 +403,22 @@ Example hypotheses_satisfiable :
   /\ forallb wf_kproc (k_procs st) = true.
 Proof. vm_compute. repeat split; reflexivity. Qed.
 
-(* finding: a UNIX socket open in two processes loses the rows of all but one of them *)
+(* the code before d36edd1: a UNIX socket open in two processes lost the rows of all but one of them *)
 Lemma unix_shared_refuted :
   exists st, wf_state st = true /\ files_text_safe true st = true /\ no_lead_ws st = true
              /\ unix_unshared st = false
-             /\ exists rows, net_connections true (k_files true st) (to_procs (k_procs st)) (bs "unix") = Val rows
+             /\ exists rows, net_connections before_repairs true (k_files true st) (to_procs (k_procs st)) (bs "unix") = Val rows
                              /\ length (spec_sys (bs "unix") st) = 4%nat /\ length rows = 3%nat.
 Proof.
   exists (ex_state true (bs "/tmp/a b")). vm_compute. repeat split; try reflexivity.
   eexists. repeat split; reflexivity.
 Qed.
 
-(* finding: a UNIX name starting with white space is returned without it *)
+(* the code before 9cf9292: a UNIX name starting with white space was returned without it *)
 Lemma unix_lead_ws_refuted :
   exists st, wf_state st = true /\ files_text_safe true st = true /\ unix_unshared st = true
              /\ no_lead_ws st = false
-             /\ exists rows, net_connections true (k_files true st) (to_procs (k_procs st)) (bs "unix") = Val rows
+             /\ exists rows, net_connections before_repairs true (k_files true st) (to_procs (k_procs st)) (bs "unix") = Val rows
                              /\ map e_laddr (spec_sys (bs "unix") st) = [APath (bs " lead"); APath (bs "@abstract name")]
                              /\ map r_laddr rows = [APath (bs "lead"); APath (bs "@abstract name")].
 Proof.
@@ -356,10 +426,29 @@ Proof.
   eexists. repeat split; reflexivity.
 Qed.
 
-(* the repaired defect (b838598): the code before the repair returned '' for a path with a blank;
-   the current model returns the path *)
+(* the defect repaired by b838598 (the code before it returned '' for a path with a blank; that code is
+   not modelled): the path is returned whole *)
 Lemma unix_path_with_blank :
-  exists rows, net_connections true (k_files true (ex_state false (bs "/tmp/a b")))
+  exists rows, net_connections current true (k_files true (ex_state false (bs "/tmp/a b")))
                                (to_procs (k_procs (ex_state false (bs "/tmp/a b")))) (bs "unix") = Val rows
                /\ map r_laddr rows = [APath (bs "/tmp/a b"); APath (bs "@abstract name")].
 Proof. eexists. vm_compute. split; reflexivity. Qed.
+
+(* the code as it is now gives the demanded answer on the two witnesses *)
+Lemma repaired_witnesses :
+  let v := current in
+  (exists rows, net_connections v true (k_files true (ex_state true (bs "/tmp/a b")))
+                                (to_procs (k_procs (ex_state true (bs "/tmp/a b")))) (bs "unix") = Val rows
+                /\ length rows = 4%nat)
+  /\ (exists rows, net_connections v true (k_files true (ex_state false (bs " lead")))
+                                   (to_procs (k_procs (ex_state false (bs " lead")))) (bs "unix") = Val rows
+                   /\ map r_laddr rows = [APath (bs " lead"); APath (bs "@abstract name")]).
+Proof. split; eexists; vm_compute; split; reflexivity. Qed.
+
+(* the domain of the theorems for the current code includes states with a UNIX socket shared between two
+   processes whose name starts with a blank *)
+Example full_domain_example :
+  let st := ex_state true (bs " lead") in
+  wf_state st = true /\ files_text_safe true st = true /\ unix_unshared st = false /\ no_lead_ws st = false
+  /\ length (spec_sys (bs "all") st) = 6%nat.
+Proof. vm_compute. repeat split; reflexivity. Qed.
